@@ -1702,6 +1702,7 @@ impl Database {
                 } else {
                     find_projections(physical_plan.root, table_def)
                 };
+                let projections_pushed_down = projections.is_some();
 
                 let storage_arc = file_manager
                     .table_data(schema_name, table_name)
@@ -1749,6 +1750,18 @@ impl Database {
                 let mut executor = if needs_all_columns {
                     builder
                         .build_with_source_and_column_map(&physical_plan, source, &all_columns_map)
+                        .wrap_err("failed to build executor")?
+                } else if let (true, crate::sql::planner::PhysicalOperator::ProjectExec(project)) =
+                    (projections_pushed_down, physical_plan.root)
+                {
+                    // the scan already yields exactly the select list, in order: running
+                    // ProjectExec (which indexes by table column) on top would project twice
+                    let scan_only = crate::sql::planner::PhysicalPlan {
+                        root: project.input,
+                        output_schema: physical_plan.output_schema.clone(),
+                    };
+                    builder
+                        .build_with_source(&scan_only, source)
                         .wrap_err("failed to build executor")?
                 } else {
                     builder
